@@ -226,6 +226,9 @@ fn input_val(case: &StreamCase, executed: &[Op]) -> Val {
         Val::opt(case.accept_encoding.as_ref().map(|a| Val::bytes(a))),
         Val::boolean(case.use_parts),
         Val::L(executed.iter().map(op_val).collect()),
+        // what the crate's own should_gzip says about this Accept-Encoding (C17 is stated relative to it;
+        // the function itself is C16's subject): 0 false, 1 true, 2 panic
+        Val::N(crate::negot::run_should_gzip(&case.accept_encoding)),
     ])
 }
 
